@@ -1435,7 +1435,9 @@ def run(chk):
                        "+ direct cp_normalize / tucker_normalize calls against the executed models (validated tape of column norms); + direct error_calc calls where the model selects the branch; "
                        "+ HOOI hypotheses (orthonormal factors, core = X x U^T) on every unmasked tucker / partial_tucker run; + recorded-value counts of the one-value-per-iteration loops; "
                        "+ parafac2 event-level traces; + class API (fit_transform: errors_ vs decomposition_); + tensor_ring_als_sampled with the exact error; "
-                       "+ static ast tie (harness/props/C06_ast.py: 11 generated goals re-proved by coqc).  Thorough: every shape, data kind rotating, all prefix lengths judged by the "
+                       "+ one parafac iteration on data for consecutive prefix runs (KSweep); + masked CP runs against error_calc_model on the original data; "
+                       "+ static ast tie (harness/props/C06_ast.py: 12 generated goals re-proved by coqc).  Quick: Coq cases for the first and last prefix length, Qops cross-check for the first and "
+                       "every 24th case of a kind, 16 cost-balanced shards.  Thorough: every shape, data kind rotating, all prefix lengths judged by the "
                        "Python predicates, Coq cases for the first, third and longest prefix of each run family")
     for b in broken:
         chk.broken.append({"what": "correspondence corr:C06 shard not evaluated", "detail": b})
